@@ -37,6 +37,10 @@ type c02Scn struct {
 	Conc  int    `json:"conc"`
 	Fork  uint64 `json:"fork"`   // reorg: last common block (blocks fork+1..3 are replaced, the new chain has 4 blocks)
 	NF    int    `json:"faults"` // fault budget of the enumeration
+	// reorg with a SIBLING integration on the same source, indexed to the head before the reorg and idle since:
+	// "other" = it writes another table, "same" = it shares the table of the integration under test. The old chain
+	// then has 2*batch blocks (two positions of the integration under test), the last two are replaced.
+	Sib string `json:"sib,omitempty"`
 	// the enumeration of one scenario is split into Parts disjoint slices: slice Part holds the executions
 	// whose FIRST fault hits an I/O point with ordinal = Part (mod Parts)
 	Part  int `json:"part"`
@@ -46,6 +50,9 @@ type c02Scn struct {
 func (s c02Scn) name() string {
 	switch s.Kind {
 	case "reorg":
+		if s.Sib != "" {
+			return fmt.Sprintf("reorg:%s:fork%d:b%dc%d:sibling-%s-table", s.Shape, s.Fork, s.Batch, s.Conc, s.Sib)
+		}
 		return fmt.Sprintf("reorg:%s:fork%d:b%dc%d", s.Shape, s.Fork, s.Batch, s.Conc)
 	case "dep":
 		return fmt.Sprintf("dep:b%dc%d", s.Batch, s.Conc)
@@ -57,6 +64,9 @@ func (s c02Scn) name() string {
 func (s c02Scn) class() string {
 	switch s.Kind {
 	case "reorg":
+		if s.Sib != "" {
+			return "reorg-with-sibling:" + s.Shape
+		}
 		return "reorg:" + s.Shape
 	case "dep":
 		return "dep"
@@ -74,7 +84,7 @@ func init() {
 		ID:        "C02",
 		Level:     "fault_enumeration",
 		Technique: "exhaustive fault enumeration on the real pipeline (instrumented code under the controlled scheduler, fake Postgres, simulated node): every I/O operation of the steps x every fault kind x process death, singly and in pairs; invariant checked in every committed state; differential check of the state after retry against the fault-free run",
-		Rule: "scenarios = growth-only steps for shapes L1 (headers+logs), L2 (logs), T1 (blocks), R1 (blocks+receipts) x (batch,conc) in {1,3}x{1,2}; a step that detects a reorg (3 blocks indexed, then the last 1 or 2 replaced and one appended) for L1 and T1; a step of a dependent integration with reference look-ups (R indexed first). " +
+		Rule: "scenarios = growth-only steps for shapes L1 (headers+logs), L2 (logs), T1 (blocks), R1 (blocks+receipts) x (batch,conc) in {1,3}x{1,2}; a step that detects a reorg (3 blocks indexed, then the last 1 or 2 replaced and one appended) for L1 and T1; the same after a position that covers 2 or 3 blocks, alone and with a sibling integration of the same source (other table, same table) that sits at the head; a step of a dependent integration with reference look-ups (R indexed first). " +
 			"Per scenario: every I/O point after the set-up (each SQL batch incl. begin/commit/COPY/copydone, each JSON-RPC exchange) x {SQL error, SQL connection drop | rpc error, transport error, HTTP 500, truncated body} and process death (all connections dropped, tasks and clients discarded, re-created by loadTasks); quick: every single fault, and every pair on the batch=1 conc=1 scenarios of L1 and T1 (growth, and reorg of the last block); thorough: every pair. " +
 			"An execution is non-trivial when at least one fault or death was injected.",
 		Assumptions: []string{
@@ -116,6 +126,17 @@ func c02Scenarios(thorough bool) []c02Scn {
 	// the position rolled back by the reorg was recorded by a step of several blocks (the rows of the whole
 	// batch have to go; found as a genuine defect of the pinned tree, repaired in /repo)
 	out = append(out, c02Scn{Kind: "reorg", Shape: "L1", Batch: 3, Conc: 1, Fork: 2, NF: 1}, c02Scn{Kind: "reorg", Shape: "T1", Batch: 2, Conc: 1, Fork: 2, NF: 1})
+	// ... and a sibling integration of the same source sits at the head (its positions must not influence the
+	// range that is rolled back)
+	for _, b := range []int{3, 2} {
+		for _, sib := range []string{"other", "same"} {
+			nfs := 1
+			if thorough {
+				nfs = 2
+			}
+			out = append(out, c02Scn{Kind: "reorg", Shape: "L1", Batch: b, Conc: 1, Fork: uint64(2*b - 2), NF: nfs, Sib: sib})
+		}
+	}
 	for _, bc := range [][2]int{{1, 1}, {3, 2}} {
 		out = append(out, c02Scn{Kind: "dep", Batch: bc[0], Conc: bc[1], NF: nf("dep", bc[0], bc[1], 0)})
 	}
@@ -185,10 +206,21 @@ func c02Prepare(s c02Scn) (*c02Prep, error) {
 		decls = []*world.Decl{d}
 		p.pairs = []c02Pair{{"ig1", d, "t1"}}
 		p.test = "ig1"
-		old := buildChain(acWord(3), d, 1)
+		oldLen := uint64(3)
+		if s.Sib != "" {
+			oldLen = uint64(2 * s.Batch)
+			tbl := "t2"
+			if s.Sib == "same" {
+				tbl = "t1"
+			}
+			d2 := shape(s.Shape, "ig2", tbl, src)
+			decls = append(decls, d2)
+			p.pairs = []c02Pair{{"ig2", d2, tbl}, {"ig1", d, "t1"}}
+		}
+		old := buildChain(acWord(int(oldLen)), d, 1)
 		// replacement blocks: other content (salt 2 seeds), one block more than the old chain
-		n := int(3 - s.Fork + 1)
-		repl := specsOf(acWord(4)[s.Fork:s.Fork+uint64(n)], d, 2, int(s.Fork)+1)
+		n := int(oldLen - s.Fork + 1)
+		repl := specsOf(acWord(int(oldLen) + 1)[s.Fork:s.Fork+uint64(n)], d, 2, int(s.Fork)+1)
 		nw := old.Reorg(s.Fork, repl, 2)
 		p.versions, p.final = []*simeth.Chain{old, nw}, nw
 	case "dep":
@@ -279,7 +311,13 @@ func c02Canon(w *world.W, p *c02Prep) string {
 	var sb strings.Builder
 	tables := []string{"shovel.task_updates"}
 	for _, pr := range p.pairs {
-		tables = append(tables, pr.table)
+		dup := false
+		for _, t := range tables {
+			dup = dup || t == pr.table
+		}
+		if !dup {
+			tables = append(tables, pr.table)
+		}
 	}
 	for _, t := range tables {
 		var cols []string
@@ -354,7 +392,12 @@ func c02Exec(p *c02Prep, ch vrt.Chooser, reference, trace bool) (res c02Result) 
 					return
 				}
 			}
-			rows := w.PG.Dump(pr.table)
+			var rows []simpg.Row
+			for _, r := range w.PG.Dump(pr.table) {
+				if ig, _ := r.Vals["ig_name"].(string); ig == pr.ig { // (a table may be shared)
+					rows = append(rows, r)
+				}
+			}
 			var beyond []uint64
 			for _, r := range rows {
 				if n, ok := bigU(r.Vals["block_num"]); ok && n > c {
@@ -501,13 +544,14 @@ func c02Exec(p *c02Prep, ch vrt.Chooser, reference, trace bool) (res c02Result) 
 			return
 		}
 		var task *world.Task
+		var all []*world.Task
 		load := func() bool {
 			ts, err := w.LoadTasks(conf)
 			if err != nil {
 				w.HarnessErr = fmt.Sprintf("loadTasks: %v", err)
 				return false
 			}
-			task = nil
+			task, all = nil, ts
 			for _, t := range ts {
 				if t.IG == p.test {
 					task = t
@@ -546,6 +590,13 @@ func c02Exec(p *c02Prep, ch vrt.Chooser, reference, trace bool) (res c02Result) 
 		}
 		switch s.Kind {
 		case "reorg":
+			if s.Sib != "" { // the sibling of the same process reaches the head first and then idles
+				for _, t := range all {
+					if t.IG == "ig2" && !runTo(t, "ig2", chain0.Head().Num) {
+						return
+					}
+				}
+			}
 			if !runTo(task, p.test, chain0.Head().Num) {
 				return
 			}
